@@ -174,6 +174,15 @@ def _check_interceptor(ctx, model, sm, name, mem):
             continue
         # fallback path
         none_side = any(_is_none_side(v, pol, lookups) for _, pol, v in ps.conds)
+        # (the look-up failed -- an unhashable node cannot have been a key --
+        # and the handler took that for "no replacement")
+        failed_lookup = any(pol and isinstance(v, tuple) and v[:1] == ("except",)
+                            for _, pol, v in ps.conds) and any(
+            isinstance(v, tuple) and v[0] == "compare" and v[2] == ("const", None)
+            and v[3] == (("const", None),) and (
+                (v[1] == ("IsNot",) and not pol) or (v[1] == ("Is",) and pol))
+            for _, pol, v in ps.conds)
+        none_side = none_side or failed_lookup
         if rv == NODE and name == "map_variable":
             saw_fallback = True
             ctx.ob(f"{tag}/fallback", none_side, loc,
